@@ -118,3 +118,28 @@ theorem fill_getElem (c : Cfg V) (p : V) (xs : List V) (i : Nat) (h : i < xs.len
 
 #print axioms split_invariant
 #print axioms fill_getElem
+
+/-! C02 corollary: committing a batch equals committing its rows one after another -/
+
+/-- row-by-row processing: one `defuzzify` call per row, threading the state -/
+def commitRows (c : Cfg V) : List V → St V → List V × St V
+  | [], s => ([], s)
+  | x :: xs, s =>
+    let r := commit c [x] s
+    let rest := commitRows c xs r.2
+    (r.1 ++ rest.1, rest.2)
+
+theorem commit_nil (c : Cfg V) (s : St V) : (commit c [] s).1 = [] := by
+  unfold commit; cases c.lockPrev <;> simp [fill]
+
+theorem batch_eq_rows (c : Cfg V) (xs : List V) (s : St V) :
+    (commit c xs s).1 = (commitRows c xs s).1 := by
+  induction xs generalizing s with
+  | nil => simp [commitRows, commit_nil]
+  | cons x xs ih =>
+    have h := split_invariant c s [x] xs (by simp)
+    simp only [List.singleton_append] at h
+    rw [h, ih]
+    simp [commitRows]
+
+#print axioms batch_eq_rows
